@@ -39,7 +39,8 @@ struct in_s {
 #include "verif_in.h"
 
 /* Shape knobs (concrete per job, they keep CBMC's state merging small):
- *   PAT   string over {s,r,n}: kind of step i (send / receive / send from inside a callback); default: symbolic kinds
+ *   PAT   string over {s,r,v,n}: kind of step i (send / receive from the own queue / receive from the virtual thread's
+ *         queue / send from inside a callback); default: symbolic kinds
  *   DOWN  bit mask of threads whose pthread_create() fails with EPERM (state stays STOP); default: symbolic results
  *   LATE  bit mask of created threads that are still STARTING (not yet in their loop) during the steps */
 #ifdef DOWN
@@ -49,8 +50,10 @@ struct in_s {
 #endif
 #ifdef PAT
 #define STEP_KIND(i)	((PAT)[(i)] == 's' ? 0 : ((PAT)[(i)] == 'n' ? 3 : 1))
+#define STEP_ONLY(i)	((PAT)[(i)] == 'r' ? 0 : ((PAT)[(i)] == 'v' ? 1 : -1))	/* r: own queue, v: virtual thread's queue */
 #else
 #define STEP_KIND(i)	(IN.step[(i)].kind)
+#define STEP_ONLY(i)	(-1)
 #endif
 #ifdef LATE
 #define STARTED(t)	(!(((LATE) >> (t)) & 1))
@@ -105,11 +108,15 @@ static void do_send(int s);
 
 static void
 cb_log(tpt_p tpt, void *udata) {
-	struct msg_s *m = (struct msg_s *)udata;
-	if (m < &msg[0] || m >= &msg[NSTEP]) {
+	/* The argument is the message number + 1 carried as an integer: CBMC resolves indirect calls by arity only, so this
+	 * function is also a candidate target of tpt_loop's `tp_udata->cb_func(&ev, tp_udata)`; writing through a pointer
+	 * argument would make every pool object a potential target of those writes. */
+	size_t id = (size_t)udata;
+	if (0 == id || id > NSTEP) {
 		foreign_cb ++;
 		return;
 	}
+	struct msg_s *m = &msg[id - 1];
 	m->cnt ++;
 	m->ran_on = v_cur;
 	m->tpt_arg = tpt;
@@ -132,10 +139,11 @@ start_thread(int t) { /* what the head of tp_thread_proc does before tpt_loop: R
 }
 
 static void
-recv_step(int t, int pick, int spur) {
+recv_step(int t, int pick, int spur, int only) {
 	int save = v_cur;
 	v_cur = t;
 	v_ew_budget = 1;
+	v_ew_only = only;
 	v_ew_pick = pick;
 	v_ew_spurious = spur;
 	for (int k = 0; k < NTHR; k ++) {
@@ -161,7 +169,7 @@ do_send(int s) {
 	m->sender = v_cur;
 	m->dst = (int)d;
 	m->dst_running = tpt_is_running(dst);
-	m->ret = tpt_msg_send(dst, src, flags, cb_log, m);
+	m->ret = tpt_msg_send(dst, src, flags, cb_log, (void *)(uintptr_t)(s + 1));
 	m->cnt_at_ret = m->cnt;
 	m->wr_failed = (v_n_write_fail != before_fail);
 
@@ -230,7 +238,7 @@ harness(void) {
 			t = st->who % NTHR;
 			if (!running[t])
 				continue;
-			recv_step(t, st->pick & 1, st->spur & 1);
+			recv_step(t, st->pick & 1, st->spur & 1, STEP_ONLY(i));
 		}
 	}
 	nest_step = -1;
@@ -243,8 +251,8 @@ harness(void) {
 		if (!running[t])
 			start_thread(t);
 		nrun ++;
-		recv_step(t, 0, 0);
-		recv_step(t, 1, 0);
+		recv_step(t, 0, 0, 0);
+		recv_step(t, 1, 0, 1);
 	}
 	for (t = 0; t <= NTHR; t ++)
 		V_ASSERT(0 == v_pipes[t].cnt || (t == 0 ? 0 == nrun : !up[t - 1]), "drain leaves only queues nobody serves");
